@@ -782,7 +782,7 @@ namespace {
                 if (std::strcmp(e->Name(), "UseOfMfc") == 0) {
                     useOfMfc = true;
                 } else if (std::strcmp(e->Name(), "CharacterSet") == 0) {
-                    useUnicode = std::strcmp(e->GetText(), "Unicode") == 0;
+                    useUnicode = std::strcmp(empty_if_null(e->GetText()), "Unicode") == 0;
                 }
             }
         }
